@@ -1,5 +1,5 @@
 use rusty_common::AtPos;
-use rusty_parser::{CaseExpression, ExpressionPos};
+use rusty_parser::{CaseExpression, ExpressionPos, ExpressionType, HasExpressionType};
 
 use super::post_conversion_linter::PostConversionLinter;
 use crate::core::{CanCastTo, LintError, LintErrorPos};
@@ -12,6 +12,26 @@ impl PostConversionLinter for SelectCaseLinter {
         case_expr: &CaseExpression,
         select_expr: &ExpressionPos,
     ) -> Result<(), LintErrorPos> {
+        // a CASE expression is compared with the SELECT CASE expression: it must be a number
+        // or a string (two records of the same type can be cast to each other, but not compared)
+        let is_value = |expr: &ExpressionPos| {
+            matches!(
+                expr.expression_type(),
+                ExpressionType::BuiltIn(_) | ExpressionType::FixedLengthString(_)
+            )
+        };
+        match case_expr {
+            CaseExpression::Simple(expr) | CaseExpression::Is(_, expr) if !is_value(expr) => {
+                return Err(LintError::TypeMismatch.at(expr));
+            }
+            CaseExpression::Range(from, _) if !is_value(from) => {
+                return Err(LintError::TypeMismatch.at(from));
+            }
+            CaseExpression::Range(_, to) if !is_value(to) => {
+                return Err(LintError::TypeMismatch.at(to));
+            }
+            _ => {}
+        }
         match case_expr {
             CaseExpression::Simple(expr) => {
                 if !expr.can_cast_to(select_expr) {
